@@ -17,6 +17,7 @@ import Driver.MD
 import Driver.FX
 import Driver.FA
 import Driver.WI
+import Driver.E2EW
 /-!
 Line-protocol driver: one operation per input line, one observation per output line:
 `<model observation>\t<spec observation>`.  First token selects the component.
@@ -43,6 +44,7 @@ structure All where
   fx : FX.St := {}
   fa : FA.St := {}
   wi : WI.St := {}
+  e2ew : E2EW.St := {}
 
 def stepAll (s : All) (line : String) : All × String :=
   match (line.trimAscii.toString.splitOn " ").filter (· ≠ "") with
@@ -94,6 +96,9 @@ def stepAll (s : All) (line : String) : All × String :=
   | "fx" :: args =>
       let (c, a, b) := FX.step s.fx args
       ({ s with fx := c }, a ++ "\t" ++ b)
+  | "e2ew" :: args =>
+      let (c, a, b) := E2EW.step s.e2ew args
+      ({ s with e2ew := c }, a ++ "\t" ++ b)
   | "wi" :: args =>
       let (c, a, b) := WI.step s.wi args
       ({ s with wi := c }, a ++ "\t" ++ b)
